@@ -28,9 +28,9 @@ AREA = "Pruning"
 P = "Arc.Pruning.Props"
 THEOREMS = [(P, n) for n in (
     "C18_civil_roundtrip_days", "C18_civil_roundtrip_date", "C18_paths_cover", "C18_generated_within", "C18_path_injective",
-    "C18_bounds_sound_conj", "C18_pruning_sound_guarded",
+    "C18_bounds_sound_conj", "C18_month_arith_agree", "C18_month_arith_order", "C18_pruning_sound_guarded",
     "C18_or_refuted", "C18_not_refuted", "C18_timestamp_column_refuted", "C18_default_start_refuted",
-    "C18_default_end_refuted", "C18_pre_epoch_refuted")]
+    "C18_default_end_refuted", "C18_month_end_refuted", "C18_pre_epoch_refuted")]
 MODULES = [P]
 TIE_NAME = ("C18 correspondence (pruning.ExtractTimeRange/GeneratePartitionPaths under a controlled clock; "
             "api.convertSQLToStoragePaths + real DuckDB with pruning on/off vs Arc.Pruning.Model)")
@@ -39,14 +39,45 @@ HOUR = 3600 * US
 DAY = 24 * HOUR
 COLS = {"time": "CTime", "event_time": "CTimeLike", "sample_timestamp": "CTimestampCol", "timestamp": "CTsExact"}
 OPS = {">=": "OGe", ">": "OGt", "<": "OLt", "<=": "OLe", "=": "OEq", "<>": "ONe"}
-UNITS = {"second": ("RSecond", US), "minute": ("RMinute", 60 * US), "hour": ("RHour", HOUR), "day": ("RDay", DAY), "week": ("RWeek", 7 * DAY)}
+UNITS = {"second": ("RSecond", US), "minute": ("RMinute", 60 * US), "hour": ("RHour", HOUR), "day": ("RDay", DAY), "week": ("RWeek", 7 * DAY),
+         "month": ("RMonth", None)}
 PRUNER_HARNESS = {"internal/pruning/zz_verif_clock.go": "harness/pruning/verif_clock.go",
                   "internal/pruning/zz_pruning_verif_test.go": "harness/pruning/pruning_verif_test.go"}
 QUERY_HARNESS = {"internal/pruning/zz_verif_clock.go": "harness/pruning/verif_clock.go",
                  "internal/api/zz_pruning_query_verif_test.go": "harness/pruning/query_verif_test.go"}
 CLOCK_REWRITE = {"internal/pruning/partition_pruner.go": [("time.Now().UTC()", "verifNow()", 2)]}
 CLASS_SIG = {1: "where-or", 2: "where-not", 3: "column-named-timestamp", 4: "no-lower-bound-default-2020",
-             5: "no-upper-bound-default-now-plus-1d"}
+             5: "no-upper-bound-default-now-plus-1d", 6: "month-interval-from-day-29-31"}
+# controlled clocks of the query level: a general one next to the 2020 layout, the last day of a
+# 31-day month in a leap year (month arithmetic: Go normalises, DuckDB clamps), the middle of a
+# 30-day month that follows a 31-day one (n calendar months > n * 30 days)
+NOW_GEN = 1584705600 * US + 123456          # 2020-03-20 12:00:00.123456
+NOW_EOM = 1711880430 * US + 500000          # 2024-03-31 10:20:30.5
+NOW_MID = 1713168600 * US + 250000          # 2024-04-15 08:10:00.25
+DIM = [31, 28, 31, 30, 31, 30, 31, 31, 30, 31, 30, 31]
+
+
+def _month_target(us, n):
+    d = dt(us)
+    k = d.year * 12 + (d.month - 1) + n
+    return d, k // 12, k % 12 + 1
+
+
+def _civil_us(y, m, day, tod):
+    return int((datetime(y, m, 1, tzinfo=timezone.utc) - datetime(1970, 1, 1, tzinfo=timezone.utc)).total_seconds()) * US + (day - 1) * DAY + tod
+
+
+def py_go_months(us, n):
+    """generator-side copy of Go's AddDate(0, n, 0) (row placement only; the authority is Model.go_add_months)"""
+    d, y, m = _month_target(us, n)
+    return _civil_us(y, m, d.day, us % DAY)
+
+
+def py_duck_months(us, n):
+    d, y, m = _month_target(us, n)
+    dim = DIM[m - 1] + (1 if m == 2 and (y % 4 == 0 and (y % 100 != 0 or y % 400 == 0)) else 0)
+    return _civil_us(y, m, min(d.day, dim), us % DAY)
+
 SIG_PRE_EPOCH = "rows-before-1970"
 
 
@@ -186,7 +217,7 @@ def around(rng, base):
     return h + rng.choice([0, 0, 0, US, 1800 * US, HOUR - US, 1, 60 * US, rng.randrange(0, HOUR)])
 
 
-def gen_where(rng, base, now, kinds=None, cols=None, allow_rel=True, ub_base=None, lb_base=None):
+def gen_where(rng, base, now, kinds=None, cols=None, allow_rel=True, ub_base=None, lb_base=None, day_files=None, rel_bias=0.0):
     """Mostly-valid WHERE clauses of the shapes dashboards send, plus the shapes the pruner gets wrong."""
     cols = cols or ["time"] * 8 + ["event_time", "sample_timestamp", "timestamp"]
     shape = rng.random()
@@ -197,17 +228,26 @@ def gen_where(rng, base, now, kinds=None, cols=None, allow_rel=True, ub_base=Non
     def upper(c=None, after=0):
         return A(("cmp", c or rng.choice(cols), rng.choice(["<", "<", "<="]), mk_lit(rng, around(rng, base + after), kinds)))
 
-    def rel(lowerb):
+    def rel(lowerb, col=None):
         op = rng.choice([">=", ">"]) if lowerb else rng.choice(["<", "<="])
-        unit = rng.choice(list(UNITS))
-        n = rng.choice([1, 2, 3, 6, 12, 20, 24, 36, 48, 90]) if unit != "week" else rng.choice([1, 2])
-        return A(("rel", rng.choice(cols), op, rng.random() < 0.2, n, unit + ("s" if n > 1 and rng.random() < 0.8 else ""),
+        unit = rng.choice(list(UNITS) + ["month", "month"])
+        n = rng.choice([1, 2, 3, 6, 12, 20, 24, 36, 48, 90]) if unit not in ("week", "month") else rng.choice([1, 2])
+        if unit == "month":
+            n = rng.choice([1, 1, 2, 3, 3, 4, 6, 11, 12, 13])
+        return A(("rel", col or rng.choice(cols), op, rng.random() < 0.2, n, unit + ("s" if n > 1 and rng.random() < 0.8 else ""),
                   rng.choice(["NOW()", "NOW()", "CURRENT_TIMESTAMP", "now()", "NOW ( )"])))
 
     def flag():
         return A(("flag", rng.randrange(4)))
 
-    if shape < 0.30:          # time >= A AND time < B [AND flags]
+    if rng.random() < rel_bias:           # relative lower bound (often in months) + explicit upper bound near `now`
+        ws = [rel(True, "time" if rng.random() < 0.95 else None), A(("cmp", "time", rng.choice(["<", "<="]), mk_lit(rng, around(rng, now + rng.choice([0, 1, 2]) * DAY), kinds)))]
+    elif day_files and shape < 0.09:      # several days, start time-of-day later than end time-of-day, last day compacted
+        dd = rng.choice(day_files)
+        a = (dd - rng.choice([1, 1, 2])) * DAY + rng.randrange(12, 24) * HOUR + rng.choice([0, 0, 1800 * US])
+        b = dd * DAY + rng.randrange(1, 12) * HOUR + rng.choice([0, 0, 60 * US])
+        ws = [A(("cmp", "time", rng.choice([">=", ">"]), mk_lit(rng, a, kinds))), A(("cmp", "time", rng.choice(["<", "<="]), mk_lit(rng, b, kinds)))]
+    elif shape < 0.30:          # time >= A AND time < B [AND flags]
         ws = [lower(), upper(after=rng.choice([1, 3, 26, 50]) * HOUR)]
     elif shape < 0.38:        # BETWEEN
         a = around(rng, base)
@@ -232,7 +272,7 @@ def gen_where(rng, base, now, kinds=None, cols=None, allow_rel=True, ub_base=Non
         ws = [flag(), flag()]
     elif shape < 0.78:        # very wide / inverted ranges (cap, empty generation)
         a = around(rng, base)
-        b = a + rng.choice([6 * 365 * DAY, 5 * 365 * DAY, 2080 * DAY, -3 * HOUR, 0])
+        b = a + rng.choice([6 * 365 * DAY, 5 * 365 * DAY if kinds is None else 40 * DAY, 2080 * DAY, -3 * HOUR, 0])   # (query level: no 45 000-path globbing)
         ws = [A(("cmp", "time", ">=", mk_lit(rng, a, kinds))), A(("cmp", "time", "<", mk_lit(rng, b, kinds)))]
     elif shape < 0.82:        # very old start (clamp to 1970)
         ws = [A(("cmp", "time", ">=", mk_lit(rng, -rng.choice([1, 400, 4000]) * DAY, kinds))),
@@ -305,26 +345,41 @@ def pruner_cases(rng, tier):
     bases = [base0, 1709251200 * US - HOUR, 1577836800 * US, 1735689600 * US - 2 * HOUR, 951782400 * US, 4102444800 * US - 5 * HOUR, 3 * DAY]
     for i in range(n):
         base = rng.choice(bases)
-        now = rng.choice([base + rng.randrange(-3, 40) * DAY + rng.randrange(DAY), 1726000000 * US + rng.randrange(DAY)])
-        c = {"w": gen_where(rng, base, now, ub_base=rng.choice([1578614400 * US, 1583020800 * US, base]), lb_base=now - rng.choice([1, 2, 30]) * DAY),
+        now = rng.choice([base + rng.randrange(-3, 40) * DAY + rng.randrange(DAY), 1726000000 * US + rng.randrange(DAY),
+                          NOW_EOM, NOW_MID, 1675161000 * US, 1735689599 * US, 1709164800 * US + rng.randrange(DAY)])   # Jan 31, Dec 31, Feb 29
+        c = {"w": gen_where(rng, base, now, ub_base=rng.choice([1578614400 * US, 1583020800 * US, base]), lb_base=now - rng.choice([1, 2, 30]) * DAY,
+                            day_files=[base // DAY + 3, base // DAY + 10], rel_bias=0.1),
              "now": now, "tail": rng.choice(TAILS), "where": True, "tag": "gen"}
         cases.append(c)
+    # direct calls of evaluateRelativeTime: Go's month arithmetic against Model.go_add_months
+    for _ in range(60 if tier == "quick" else 600):
+        t = rng.choice([NOW_EOM, NOW_MID, 1675161000 * US, 1735689599 * US, 1709164800 * US + rng.randrange(DAY),
+                        rng.randrange(0, 4 * 10 ** 9) * US + rng.randrange(US)])
+        cases.append({"rel": (rng.choice([1, 2, 3, 5, 11, 12, 13, 25, 120]), rng.random() < 0.3), "now": t, "where": False, "tag": "relprim",
+                      "w": A(("flag", 0)), "tail": ""})
     # malformed stream: no WHERE, WHERE-less subquery text, lower-case keyword
     for _ in range(10 if tier == "quick" else 100):
         w = gen_where(rng, base0, base0)
         cases.append({"w": w, "now": base0, "tail": "", "where": False, "tag": "no-where"})
     for c in cases:
         kw = "WHERE" if c["tag"] != "gen" or rng.random() < 0.8 else rng.choice(["where", "Where", "WHERE\n "])
-        if c["where"]:
+        if c["tag"] == "relprim":
+            c["sql"] = "evaluateRelativeTime(%d, month, add=%s)" % c["rel"]
+        elif c["where"]:
             c["sql"] = "SELECT * FROM vdb.vm %s %s%s" % (kw, w_text(c["w"]), c["tail"])
         else:
             c["sql"] = "SELECT count(*) FROM vdb.vm" + rng.choice(["", " ORDER BY 1", " LIMIT 5"])
     return cases
 
 
+def rng_unit(c):
+    return "months" if c["rel"][0] % 2 else "month"
+
+
 def run_pruner(cases, tag):
     out = vlib.run_go_harness("C18", "./internal/pruning/", "^TestVerifPruner$", PRUNER_HARNESS,
-                              [{"sql": c["sql"], "now": c["now"]} for c in cases], rewrites=CLOCK_REWRITE, tag="pruner_" + tag)
+                              [dict({"sql": c["sql"], "now": c["now"]}, **({"rel_amount": str(c["rel"][0]), "rel_unit": rng_unit(c), "rel_add": c["rel"][1]} if "rel" in c else {}))
+                               for c in cases], rewrites=CLOCK_REWRITE, tag="pruner_" + tag)
     if len(out) != len(cases):
         raise vlib.TieBroken("C18 pruner harness returned %d results for %d cases" % (len(out), len(cases)))
     for c, o in zip(cases, out):
@@ -332,6 +387,8 @@ def run_pruner(cases, tag):
             raise vlib.TieBroken("GeneratePartitionPaths produced a path of unexpected shape: %r" % o["other"][:2])
         if o.get("sub_us"):
             raise vlib.TieBroken("extracted bound with sub-microsecond precision for %r" % c["sql"])
+        if "rel" in c and o.get("rel_err"):
+            raise vlib.TieBroken("evaluateRelativeTime failed: %s" % o["rel_err"])
         c["obs"] = o
     return cases
 
@@ -368,11 +425,44 @@ def day_dir(dn):
     return dt(dn * DAY).strftime("%Y/%m/%d")
 
 
-def build_layout(rng, now):
-    """Hour- and day-level files: a busy stretch in 2024, a daily-compacted day, rows exactly on hour
-    boundaries, data before 2020, before 1970, around `now` and in the future."""
+def build_layout(rng):
+    """Hour- and day-level files: a busy stretch in March 2020, daily-compacted days, rows exactly on
+    hour boundaries, data before 2020 and before 1970, and - for each controlled clock - rows around
+    it, in its future, and just inside / outside every month-interval bound (DuckDB's, Go's and the
+    30-days-per-month one)."""
     base = 1584280800 * US      # 2020-03-15 14:00 (close to the default start 2020-01-01: ranges that
-    files = []                  # fall back to it stay a few thousand hours long)
+    hours, days = {}, {}        # fall back to it stay a few thousand hours long)
+
+    def hour_file(h, extra=(), k=3):
+        l = hours.setdefault(h, [])
+        if not l:
+            l += [h * HOUR, h * HOUR + HOUR - 1] + [h * HOUR + rng.randrange(HOUR) for _ in range(k)]
+        l += [t for t in extra if t // HOUR == h]
+
+    def day_file(d, k=6):
+        days.setdefault(d, [d * DAY, d * DAY + DAY - 1, d * DAY + 5 * HOUR] + [d * DAY + rng.randrange(DAY) for _ in range(k)])
+
+    h0 = base // HOUR
+    for h in list(range(h0 - 4, h0 + 8)) + [h0 + 24, h0 + 25, h0 + 47, h0 + 50]:
+        hour_file(h)
+    day_file(base // DAY - 1)
+    day_file(base // DAY + 3)
+    day_file(base // DAY + 10)
+    hour_file((1577836800 * US) // HOUR - 2)          # 2019-12-31 22:00
+    hour_file((1578614400 * US) // HOUR - 3)          # 2020-01-09 21:00
+    hour_file((1578614400 * US) // HOUR + 1)          # 2020-01-10 01:00
+    day_file((1577836800 * US) // DAY - 30)           # 2019-12-02
+    hour_file(-1)                                     # 1969-12-31 23:00
+    hour_file(0)                                      # 1970-01-01 00:00
+    for now in (NOW_GEN, NOW_EOM, NOW_MID):
+        nh = now // HOUR
+        for h in [nh - 30, nh - 3, nh - 2, nh + 2, nh + 30, nh + 24 * 40]:
+            hour_file(h, k=2)
+        day_file(now // DAY - 10, 3)
+    for now in (NOW_EOM, NOW_MID):
+        for n in (1, 2, 3, -1):
+            for b in {py_duck_months(now, -n), py_go_months(now, -n), now - n * 30 * DAY}:
+                hour_file(b // HOUR, extra=(b - 100000, b + 100000), k=1)
     nid = [0]
 
     def row(t):
@@ -381,62 +471,60 @@ def build_layout(rng, now):
                 "stime": t + rng.choice([0, 2 * DAY, -7 * HOUR]), "ts": t + rng.choice([0, 0, 6 * HOUR, -2 * DAY]),
                 "f": [rng.random() < 0.5 for _ in range(4)]}
 
-    def hour_file(h, k=3):
-        ts = [h * HOUR, h * HOUR + HOUR - 1] + [h * HOUR + rng.randrange(HOUR) for _ in range(k)]
-        files.append({"kind": "hour", "idx": h, "dir": hour_dir(h), "rows": [row(t) for t in ts]})
-
-    def day_file(d, k=6):
-        ts = [d * DAY, d * DAY + DAY - 1] + [d * DAY + rng.randrange(DAY) for _ in range(k)]
-        files.append({"kind": "day", "idx": d, "dir": day_dir(d), "rows": [row(t) for t in ts]})
-
-    h0 = base // HOUR
-    for h in list(range(h0 - 4, h0 + 8)) + [h0 + 24, h0 + 25, h0 + 47, h0 + 50]:
-        hour_file(h)
-    day_file(base // DAY - 1)
-    day_file(base // DAY + 3)
-    hour_file((1577836800 * US) // HOUR - 2)          # 2019-12-31 22:00
-    hour_file((1578614400 * US) // HOUR - 3)          # 2020-01-09 21:00
-    hour_file((1578614400 * US) // HOUR + 1)          # 2020-01-10 01:00
-    day_file((1577836800 * US) // DAY - 30)           # 2019-12-02
-    hour_file(-1)                                     # 1969-12-31 23:00
-    hour_file(0)                                      # 1970-01-01 00:00
-    nh = now // HOUR
-    for h in [nh - 30, nh - 3, nh - 2, nh + 2, nh + 30, nh + 24 * 40]:
-        hour_file(h, 2)
-    day_file(now // DAY - 10, 3)
-    return base, files
+    files = [{"kind": "hour", "idx": h, "dir": hour_dir(h), "rows": [row(t) for t in ts]} for h, ts in sorted(hours.items())]
+    files += [{"kind": "day", "idx": d, "dir": day_dir(d), "rows": [row(t) for t in ts]} for d, ts in sorted(days.items())]
+    return base, files, sorted(days)
 
 
-def query_cases(rng, tier, base, now):
-    n = 90 if tier == "quick" else 600
+def query_cases(rng, tier, base, day_files):
+    n = 100 if tier == "quick" else 600
     # spellings DuckDB accepts for a TIMESTAMP comparison
     kinds = ["space", "space", "rfc", "date", "minute", "frac", "offset", "plus00", "t_nozone"]
-    cases = [{"w": w, "tag": "witness-" + name} for name, w in witnesses(base, now, bounded=True)]
-    cases += [{"w": w, "tag": "corpus-" + name} for name, w in load_corpus()]
+    cases = [{"w": w, "tag": "witness-" + name, "now": NOW_GEN} for name, w in witnesses(base, NOW_GEN, bounded=True)]
+    cases += [{"w": w, "tag": "corpus-" + name, "now": NOW_GEN} for name, w in load_corpus()]
+    L = lambda us: {"us": us, "text": spell(us // US * US, "space")[0], "ok": True}
+    cases.append({"tag": "witness-month-end", "now": NOW_EOM,           # C18_month_end_refuted
+                  "w": ("and", A(("rel", "time", ">=", False, 1, "month", "NOW()")), A(("cmp", "time", "<", L(NOW_EOM + DAY))))})
     bases = [base, base, base, base + DAY, 1577836800 * US, 1578614400 * US, 0]
+    recent = [d for d in day_files if base // DAY - 2 <= d <= base // DAY + 12]
     for _ in range(n):
-        b = rng.choice(bases)
-        cases.append({"w": gen_where_q(rng, b, now, kinds), "tag": "gen"})
+        r = rng.random()
+        if r < 0.72:
+            now, b, bias = NOW_GEN, rng.choice(bases), 0.0
+        else:
+            now = NOW_EOM if r < 0.86 else NOW_MID
+            b, bias = now - rng.choice([0, 1, 3]) * DAY, 0.75
+        cases.append({"w": gen_where(rng, b, now, kinds=kinds, ub_base=1578614400 * US, lb_base=now - 2 * DAY, day_files=recent, rel_bias=bias),
+                      "tag": "gen", "now": now})
     for c in cases:
         c["sql"] = "SELECT id FROM vdb.vm WHERE %s%s" % (w_text(c["w"]), rng.choice(["", " ORDER BY id", " LIMIT 100000"]))
     return cases
 
 
-def gen_where_q(rng, base, now, kinds):
-    """query level: relative bounds keep a margin of minutes from every stored row (the wall clock
-    moves between generation, pruner and DuckDB)."""
-    return gen_where(rng, base, now, kinds=kinds, ub_base=1578614400 * US, lb_base=now - 2 * DAY)      # 2020-01-10 / the day before yesterday
+def duck_prims(rng, tier):
+    """DuckDB's month arithmetic on TIMESTAMPTZ (UTC) against Model.duck_add_months"""
+    vals = []
+    for _ in range(80 if tier == "quick" else 800):
+        t = rng.choice([NOW_EOM, NOW_MID, 1675161000 * US, 1735689599 * US, 1709164800 * US + rng.randrange(DAY),
+                        rng.randrange(0, 4 * 10 ** 9) * US + rng.randrange(US)])
+        vals.append((t, rng.choice([1, 2, 3, 5, 11, 12, 13, 25, 120]) * rng.choice([1, 1, -1])))
+    sql = "SELECT * FROM (VALUES %s) v(t, n, r)" % ", ".join(
+        "(%d, %d, epoch_us(make_timestamp(%d)::TIMESTAMPTZ %s INTERVAL '%d months'))" % (t, n, t, "+" if n > 0 else "-", abs(n)) for t, n in vals)
+    return [sql]
 
 
-def run_queries(files, cases, tag):
-    inp = {"files": [{"dir": f["dir"], "rows": f["rows"]} for f in files], "queries": [c["sql"] for c in cases]}
+def run_queries(files, cases, tag, prims=()):
+    inp = {"files": [{"dir": f["dir"], "rows": f["rows"]} for f in files], "queries": [{"sql": c["sql"], "now": c["now"]} for c in cases],
+           "prims": list(prims)}
     out = vlib.run_go_harness("C18", "./internal/api/", "^TestVerifPruningQuery$", QUERY_HARNESS, inp,
                               rewrites=CLOCK_REWRITE, tag="query_" + tag, timeout=1500)
-    if len(out) != len(cases):
-        raise vlib.TieBroken("C18 query harness returned %d results for %d queries" % (len(out), len(cases)))
-    for c, o in zip(cases, out):
+    if len(out["queries"]) != len(cases):
+        raise vlib.TieBroken("C18 query harness returned %d results for %d queries" % (len(out["queries"]), len(cases)))
+    if any(out.get("prim_err") or []):
+        raise vlib.TieBroken("DuckDB primitive query failed: %s" % [e for e in out["prim_err"] if e][0])
+    for c, o in zip(cases, out["queries"]):
         c["obs"] = o
-    return cases
+    return cases, [r for q in (out.get("prims") or []) for r in (q or [])]
 
 
 def row_coq(r):
@@ -504,9 +592,16 @@ def coq_lists(name, body, labels):
     return res
 
 
-def evaluate(pcases, files, qcases, name):
+def evaluate(pcases, files, qcases, name, duck_rows=()):
     from concurrent.futures import ThreadPoolExecutor
     jobs = []
+    relprims = [c for c in pcases if c["tag"] == "relprim"]
+    pcases = [c for c in pcases if c["tag"] != "relprim"]
+    mterms = ["MGo %s %s %s" % (hz(c["now"]), hz(c["rel"][0] if c["rel"][1] else -c["rel"][0]), hz(c["obs"]["rel"])) for c in relprims]
+    mterms += ["MDuck %s %s %s" % (hz(int(r[0])), hz(int(r[1])), hz(int(r[2]))) for r in duck_rows]
+    body = chunked("mcases", "mcase", mterms, 40)
+    body += "Definition m_dis := Eval vm_compute in vidx mcase_agrees 0%N mcases.\nPrint m_dis.\n"
+    jobs.append(("m", 0, name + "_months", body, ["m_dis"]))
     PCH = 110
     for off in range(0, len(pcases), PCH):
         body = chunked("pcases", "pcase", [pcase_coq(c) for c in pcases[off:off + PCH]], 10)
@@ -522,9 +617,11 @@ def evaluate(pcases, files, qcases, name):
         jobs.append(("q", off, name + "_query_%d" % off, body, ["q_dis", "q_orf", "q_cls"]))
     with ThreadPoolExecutor(max_workers=8) as ex:
         results = list(ex.map(lambda j: coq_lists(j[2], j[3], j[4]), jobs))
-    r = {"p_dis": [], "q_dis": [], "q_orf": [], "q_cls": {}}
+    r = {"p_dis": [], "q_dis": [], "q_orf": [], "q_cls": {}, "m_dis": [], "mterms": mterms, "pcases": pcases}
     for (kind, off, _, _, _), rr in zip(jobs, results):
-        if kind == "p":
+        if kind == "m":
+            r["m_dis"] = rr["m_dis"]
+        elif kind == "p":
             r["p_dis"] += [off + x for x in rr["p_dis"]]
         else:
             r["q_dis"] += [off + x for x in rr["q_dis"]]
@@ -554,27 +651,27 @@ def run(res, tier, seed):
     res.cov["trusted_base"] += [
         "DuckDB (v1.5.5) evaluates the WHERE clause and reads the Parquet files; its comparison of a TIMESTAMP column with string literals / NOW() +/- INTERVAL is modelled (integers, UTC) and validated per query against the unpruned execution",
         "the WHERE text <-> AST printer of tools/props/C18.py; the pruner's regular expressions are modelled on the atoms in textual order (string-literal contents, comments, sub-selects and joins are outside the modelled grammar)",
-        "Go's time.Parse layouts accepted by parseDateTime are summarised per literal spelling by the generator (l_ok) and checked through the extracted range; month-sized NOW() intervals (AddDate normalisation) and amounts overflowing time.Duration are not modelled",
+        "Go's time.Parse layouts accepted by parseDateTime are summarised per literal spelling by the generator (l_ok) and checked through the extracted range; NOW() +/- INTERVAL 'n months' is modelled on both sides (Go AddDate normalisation, DuckDB end-of-month clamping) and both definitions are validated each run (evaluateRelativeTime under the controlled clock, DuckDB on explicit TIMESTAMPTZ values); amounts overflowing time.Duration are not modelled",
+        "query level: the pruner reads a controlled clock and the NOW()/CURRENT_TIMESTAMP of the SQL that DuckDB executes are replaced by the same instant (harness)",
         "layout: hour files .../YYYY/MM/DD/HH/*.parquet and daily-compacted files .../YYYY/MM/DD/*.parquet, every row stored in the partition of its own timestamp; local storage backend (the S3/Azure existence filter is not exercised)",
     ]
-    now_py = int(time.time() * US)
     t1 = time.time()
     pcases = run_pruner(pruner_cases(rng, tier), tier)
     res.stage("pruner_harness", t1)
     t2 = time.time()
-    base, files = build_layout(rng, now_py)
-    qcases = run_queries(files, query_cases(rng, tier, base, now_py), tier)
+    base, files, day_files = build_layout(rng)
+    qcases, duck_rows = run_queries(files, query_cases(rng, tier, base, day_files), tier, prims=duck_prims(rng, tier))
     res.stage("query_harness", t2)
     t3 = time.time()
-    ev = evaluate(pcases, files, qcases, "Cases_%s" % tier)
+    ev = evaluate(pcases, files, qcases, "Cases_%s" % tier, duck_rows)
     res.stage("coq_eval", t3)
-    report(res, pcases, files, qcases, ev, failed)
+    report(res, ev["pcases"], files, qcases, ev, failed)
 
 
 def report(res, pcases, files, qcases, ev, failed):
     known = {e["signature"]: e for e in vlib.known_for("C18")}
     nrows = sum(len(f["rows"]) for f in files)
-    res.cov["evaluations"] = len(pcases) + len(qcases) * 2
+    res.cov["evaluations"] = len(pcases) + len(qcases) * 2 + len(ev["mterms"])
     nt = {c["sql"] for c in pcases if c["where"] and w_nontrivial(c["w"])} | {c["sql"] for c in qcases if w_nontrivial(c["w"])}
     res.cov["distinct_nontrivial"] = len(nt)
     res.cov["rule"] = ("pruner level: generated WHERE clauses (conjunctions of time bounds in 10 literal spellings, BETWEEN, NOW() +/- INTERVAL, flags, OR/NOT trees, "
@@ -592,7 +689,8 @@ def report(res, pcases, files, qcases, ev, failed):
         "query_class_histogram": {str(k): sum(1 for v in ev["q_cls"].values() if v == k) for k in range(7)},
         "layout_files": len(files), "layout_rows": nrows,
     }
-    res.cov["model_vs_impl_disagreements"] = len(ev["p_dis"]) + len(ev["q_dis"])
+    res.cov["model_vs_impl_disagreements"] = len(ev["p_dis"]) + len(ev["q_dis"]) + len(ev["m_dis"])
+    res.cov["histogram"]["month_arithmetic_cases"] = len(ev["mterms"])
     res.cov["oracle_failures"] = len(ev["q_orf"])
     sample_q = next((c for c in qcases if c["obs"].get("was_pruned")), qcases[0])
     res.cov["samples"] = [
@@ -633,6 +731,11 @@ def report(res, pcases, files, qcases, ev, failed):
                       "pruning changes the rows of a query and the model does not predict the row sets",
                       {"kind": "oracle-failure", "case": w, "class": sig, "model_disagrees": dis, "count": len(unexplained),
                        "files": [{"dir": f["dir"]} for f in files], "how_to_replay": "python3 tools/check.py C18 --replay <this file>"})
+    if ev["m_dis"]:
+        res.violation("month arithmetic of evaluateRelativeTime (MGo) / DuckDB (MDuck) is not what the model defines",
+                      {"kind": "correspondence", "correspondence": TIE_NAME, "case": {"month_case (t_us, months, observed_us)": ev["mterms"][ev["m_dis"][0]]},
+                       "disagreeing_cases": len(ev["m_dis"]), "oracle_fails_on_impl": bool(unexplained)},
+                      no_input=not unexplained, suffix="corrm")
     if ev["p_dis"]:
         c = pcases[ev["p_dis"][0]]
         small = c
@@ -664,7 +767,7 @@ def report(res, pcases, files, qcases, ev, failed):
 
 def warm():
     vlib.run_go_harness("C18", "./internal/pruning/", "^TestVerifPruner$", PRUNER_HARNESS, [], rewrites=CLOCK_REWRITE, tag="warm_p")
-    vlib.run_go_harness("C18", "./internal/api/", "^TestVerifPruningQuery$", QUERY_HARNESS, {"files": [], "queries": []},
+    vlib.run_go_harness("C18", "./internal/api/", "^TestVerifPruningQuery$", QUERY_HARNESS, {"files": [], "queries": [], "prims": []},
                         rewrites=CLOCK_REWRITE, tag="warm_q", timeout=1500)
 
 
@@ -680,11 +783,12 @@ def replay(res, path):
         print("ExtractTimeRange/GeneratePartitionPaths:", json.dumps(out[0])[:1500])
         return 1
     rng = random.Random(res.seed * 7919 + 18)
-    _, files = build_layout(rng, int(time.time() * US))
+    pruner_cases(rng, "quick")                       # advance the generator exactly as run() does
+    _, files, _ = build_layout(rng)
     out = vlib.run_go_harness("C18", "./internal/api/", "^TestVerifPruningQuery$", QUERY_HARNESS,
-                              {"files": [{"dir": f["dir"], "rows": f["rows"]} for f in files], "queries": [c["sql"]]},
+                              {"files": [{"dir": f["dir"], "rows": f["rows"]} for f in files], "queries": [{"sql": c["sql"], "now": c.get("now_us", 0)}], "prims": []},
                               rewrites=CLOCK_REWRITE, tag="replay_q", timeout=1500)
-    o = out[0]
+    o = out["queries"][0]
     print("with pruning:", sorted(o.get("pruned") or []), o.get("err_p", ""))
     print("without     :", sorted(o.get("unpruned") or []), o.get("err_u", ""))
     return 1 if sorted(o.get("pruned") or []) != sorted(o.get("unpruned") or []) else 0
